@@ -101,6 +101,28 @@ def main():
             return ("Some", Ref(r.frame, r.local, list(r.proj) + [("field", 1), ("idx", k)]))
         return ("None",)
 
+    def m_slice_get_mut(e, m, a):
+        s_, k = a
+        base = s_[1] if isinstance(s_, tuple) and s_[0] == "slice" else s_
+        v = deref(e, base)
+        if is_sym(k):
+            raise Unsupported("symbolic index")
+        if k < len(v[1]):
+            return ("Some", Ref(base.frame, base.local, list(base.proj) + [("field", 1), ("idx", k)]))
+        return ("None",)
+
+    def m_mem_take(e, m, a):
+        r = a[0]
+        old = e.read_path(r.frame, r.local, list(r.proj))
+        e.write_path(r.frame, r.local, list(r.proj), ("default", m.group(1)))
+        return old
+
+    def m_mem_replace(e, m, a):
+        r = a[0]
+        old = e.read_path(r.frame, r.local, list(r.proj))
+        e.write_path(r.frame, r.local, list(r.proj), a[1])
+        return old
+
     def m_vec_len(e, m, a):
         return len(deref(e, a[0])[1])
 
@@ -174,6 +196,10 @@ def main():
         (r"^FunctionContext::<'_>::resolve::<(\w+)>$", m_fctx_resolve),
         (r"^<Vec<Expression> as Deref>::deref$", m_vec_deref),
         (r"^core::slice::<impl \[Expression\]>::get::<usize>$", m_slice_get),
+        (r"^core::slice::<impl \[Expression\]>::get_mut::<usize>$", m_slice_get_mut),
+        (r"^<Vec<Expression> as DerefMut>::deref_mut$", lambda e, m, a: ("slice", a[0])),
+        (r"^std::mem::take::<(.*)>$", m_mem_take),
+        (r"^std::mem::replace::<(.*)>$", m_mem_replace),
         (r"^core::slice::<impl \[Expression\]>::first$", lambda e, m, a: m_slice_get(e, m, [a[0], 0])),
         (r"^core::slice::<impl \[Expression\]>::len$", lambda e, m, a: len(deref(e, a[0][1])[1])),
         (r"^core::slice::<impl \[Expression\]>::is_empty$", lambda e, m, a: len(deref(e, a[0][1])[1]) == 0),
@@ -221,6 +247,11 @@ def main():
 
         def on_path(res, e):
             probs = spec(res, cur["events"], cur["fctx"], cur["results"])
+            # an extractor hands data out; the call's argument expressions, function name and receiver stay what the call site put there
+            if cur["fctx"][3] != ("vec", [("operand", j) for j in range(n)]):
+                probs = list(probs) + ["the FunctionContext's argument expressions were modified: %r" % (cur["fctx"][3],)]
+            if cur["fctx"][0] != ("string", "f") or cur["fctx"][1] != (("Some", ("abs_val", "receiver")) if has_this else ("None",)):
+                probs = list(probs) + ["the FunctionContext's name / receiver were modified"]
             if probs:
                 failures.append(dict(desc, problems=probs, events=[list(x) for x in cur["events"]]))
             else:
